@@ -4106,14 +4106,16 @@ class UDFFileEntry:
 
         return new_num_extents - old_num_extents
 
-    def remove_file_ident_desc_by_name(self, name, logical_block_size):
-        # type: (bytes, int) -> int
+    def remove_file_ident_desc_by_name(self, name, logical_block_size, is_dir=None):
+        # type: (bytes, int, Optional[bool]) -> int
         """
         Remove a UDF File Identifier Descriptor from this UDF File Entry.
 
         Parameters:
          name - The name of the UDF File Identifier Descriptor to remove.
          logical_block_size - The logical block size to use.
+         is_dir - If not None, whether the entry to remove is required to be
+                  a directory (True) or not to be one (False).
         Returns:
          The number of extents removed due to removing this File Identifier Descriptor.
         """
@@ -4134,6 +4136,10 @@ class UDFFileEntry:
             raise pycdlibexception.PyCdlibInvalidInput('Cannot find file to remove')
 
         this_desc = self.fi_descs[desc_index]
+        if is_dir is not None and this_desc.is_dir() != is_dir:
+            if is_dir:
+                raise pycdlibexception.PyCdlibInvalidInput('Cannot remove a file with rm_directory (try rm_file instead)')
+            raise pycdlibexception.PyCdlibInvalidInput('Cannot remove a directory with rm_file (try rm_directory instead)')
         if this_desc.is_dir():
             if this_desc.file_entry is None:
                 raise pycdlibexception.PyCdlibInternalError('No UDF File Entry for UDF File Descriptor')
